@@ -155,7 +155,7 @@ def run(ctx):
                            "matches InternalContext.collect_events)", coq_cases=[exprs[i] for i in bad[:3]]), found_input=False)
     for k in ("returned", "buffered", "dropped"):
         ctx.require_coverage("collect", k, kinds[k], 20)
-    run_l1(ctx, ctx.n(100, 4000), l1_monitor, THEOREMS, need=("collect_rerun",))
+    run_l1(ctx, ctx.n(220, 4000), l1_monitor, THEOREMS, need=("collect_rerun", "stale_collect_with_returned_event"))
     fails2, facts = run_l2(ctx, [S.collect2, S.fanout, S.collectfail, S.collectwait], ctx.n(180, 4000), l2_monitor,
                            need=(("returned_lists", 50), ("reruns_on_stale_snapshot", 10), ("runs_multi_worker", 20), ("collect_then_fail_runs", 10),
                                  ("collect_then_wait_runs", 10)))
